@@ -1,6 +1,7 @@
 import ScyllaVerif.Model.Util
 import ScyllaVerif.Model.MergeChannel
 import ScyllaVerif.Model.MetaUpdate
+import ScyllaVerif.Model.ClusterConsumer
 /-! Line-protocol driver for C19.
 
 * `chan <op>;<op>;…` — the merge channel at poll granularity. Producer: `m<x>` merge, `D` drop sender.
@@ -11,6 +12,8 @@ import ScyllaVerif.Model.MetaUpdate
   request (no client routes configured), `G<tag>/<routes>` / `H<tag>/<routes>` the same with client routes configured,
   `C<entries>` merge_client_routes_update (`host.conn.port` upsert, `host.conn.x` removal), `T<tag>`
   merge_topology_update, `U<addr>` / `W<addr>` up / down hint, `K` take.
+* `worker <op>;…` — a real `ClusterWorker` behind the channel: the same merge ops, an optional leading `S1` (client-routes
+  subscriber configured) and `K` = the consumer catches up (takes the slot, then a sentinel hint); prints what is published.
 * `stress <n> <mode> <seed>` — two OS threads; the schedule is not observable, the line only says that the
   concatenation of everything received was `0..n` and that `None` came last (what `Props.C19` proves for every schedule).
 * `race <reps> <n> <seed>` — `reps` such rounds with a tiny `n` (the drop follows the last merge at once).
@@ -186,6 +189,77 @@ def runSlot (ops : List String) : String :=
 
 end Slot
 
+/-! ### worker: the consumer behind the channel -/
+section Worker
+open ScyllaVerif.MetaUpdate ScyllaVerif.ClusterConsumer
+
+structure WorkerSt where
+  pipe : Pipe
+  nextRefresh : Nat := 0
+
+/-- `K`: the consumer takes the slot; the harness then merges a sentinel DOWN hint for address 0 and the consumer takes
+that, too. Prints what is published. -/
+def workerCatchUp (st : WorkerSt) : WorkerSt × String :=
+  let p1 := pstep st.pipe .take
+  let p2 := pstep (pstep p1 (.merge (.hint 0 false))) .take
+  let isNew := p2.cons.publications > st.pipe.cons.publications
+  let ok := p2.cons.answered.drop st.pipe.cons.answered.length
+  ({ st with pipe := p2 },
+   s!"pub={p2.cons.published} new={if isNew then 1 else 0} ok={listStr (ok.map toString)} err=- drop=-")
+
+def workerOp (st : WorkerSt) (idx : Nat) (op : String) : Option (WorkerSt × String) :=
+  match splitOp op with
+  | none => none
+  | some (c, arg) =>
+    let mergeOp (o : Op) : WorkerSt := { st with pipe := pstep st.pipe (.merge o) }
+    if c == 'S' then
+      if idx == 0 && (arg == "1" || arg == "0") then some (st, "-") else none
+    else if c == 'K' then
+      if arg != "" then none else some (workerCatchUp st)
+    else if c == 'C' then
+      match parseRouteEntries arg true with
+      | none => none
+      | some es => some (mergeOp (.clientRoutes (mkRoutesUpdate es)), "-")
+    else if c == 'G' || c == 'H' then
+      match arg.splitOn "/" with
+      | [tag, rs] =>
+        match tag.toNat?, parseRouteEntries rs false with
+        | some tag, some es =>
+          let routes := mkRoutes (es.filterMap fun e => e.2.map fun p => (e.1, p))
+          let m : Meta := { peers := tag, clientRoutes := some routes }
+          if c == 'H' then
+            some ({ pipe := pstep st.pipe (.merge (.metadata m (some st.nextRefresh))), nextRefresh := st.nextRefresh + 1 },
+                  s!"r{st.nextRefresh}")
+          else some (mergeOp (.metadata m none), "-")
+        | _, _ => none
+      | _ => none
+    else
+    match arg.toNat? with
+    | none => none
+    | some n =>
+      if c == 'F' then some (mergeOp (.metadata { peers := n } none), "-")
+      else if c == 'R' then
+        some ({ pipe := pstep st.pipe (.merge (.metadata { peers := n } (some st.nextRefresh))),
+                nextRefresh := st.nextRefresh + 1 }, s!"r{st.nextRefresh}")
+      else if c == 'T' then some (mergeOp (.topology n), "-")
+      else if c == 'U' then (if n > 65535 then none else some (mergeOp (.hint n true), "-"))
+      else if c == 'W' then (if n > 65535 then none else some (mergeOp (.hint n false), "-"))
+      else none
+
+def runWorker (ops : List String) : String :=
+  let sub := ops.head? == some "S1"
+  let rec go : List String → Nat → WorkerSt → List String → Option (List String)
+    | [], _, _, out => some out.reverse
+    | op :: rest, i, st, out =>
+      match workerOp st i op with
+      | none => none
+      | some (st', w) => go rest (i + 1) st' (w :: out)
+  match go ops 0 { pipe := { cons := { hasSubscriber := sub, published := 0 } } } [] with
+  | none => "bad-case"
+  | some out => ";".intercalate out
+
+end Worker
+
 def opsOf (body : String) : List String := (body.splitOn ";").filter (· ≠ "")
 
 def run (case _impl : String) : String :=
@@ -194,6 +268,8 @@ def run (case _impl : String) : String :=
   | ["chan"] => runChan []
   | ["slot", body] => runSlot (opsOf body)
   | ["slot"] => runSlot []
+  | ["worker", body] => runWorker (opsOf body)
+  | ["worker"] => runWorker []
   | ["stress", n, _mode, _seed] =>
     match n.toNat? with
     | some _ => "stream-complete in-order none-last"
